@@ -7,6 +7,11 @@ HOOK_COMMITS = subprocess.run(
     capture_output=True, text=True).stdout.strip().splitlines()
 
 CHECKS = {
+ "C03": dict(
+   text="Seeded deterministic simulation in which the load order of flows - in production the iteration order of a Go map, re-drawn at every start and reload - is a scheduling decision of the simulator (verifhook.Order seam in the flow builder). Each run loads the same generated flow files under 2-4 orders (load, reloads) into the real streams engine and sends 6-24 derived transactions (request and response side). Oracles: independent segment-wise matcher for R1 only-if and R2 if (with a generous shadowing exemption), R3 the applied-flow set of every transaction is identical under every order tried (needs no matcher), R4 no action for unmatched transactions. Sampling, not proof.",
+   design_ref="DESIGN.md section 4 C03",
+   note="Trusted: the independent matcher (60 lines) and its undecided case (trailing wildcard vs empty suffix); header/query judged on requests, status on responses; methods GET/POST/PUT only; the schedule dimension here is the load order only - the rest is input generation against a reference.",
+   technique="deterministic simulation: load order as seeded schedule over load/reload histories, differential oracle against an independent matcher plus order-independence"),
  "C08": dict(
    level="fault_enumeration",
    text="Fault enumeration plus seeded simulation over the real /configuration and /apply_flows handlers (verif-only HandlingDataManager constructor, httptest), the real FileSystemOperation on a temporary tree, real validation/reload and a simulated HAProxy. C08E: for both endpoints x 8 payload classes, a recording run lists every file-system and HAProxy call the update passes through and one run per listed point fails exactly that call (writes are torn). C08S: 0-3 simultaneous faults incl. faults on the restore path, and probe transactions overlapping the update at the engine-built-not-published point, at fault points and at lock sites. Oracles: R1 directory digest unchanged after a non-2xx, R2 probe verdict vector unchanged after a non-2xx, R3 after 2xx directory = old+payload and running engine = fresh engine on that directory, R4 every probe during the switch saw the old or the new configuration. R1/R2 are not demanded when more than one failure hit one update.",
